@@ -139,12 +139,14 @@ def _check(case):
     if spec["log"]:
         # values that underflowed to zero (or a continuation built from them): the collapsed pseudo-solution in its
         # final stage; x = 0 meets x - rhs = 0 exactly but is outside the domain of the equations in logs
-        for nm in names:
-            a_ = pO.arr(nm)
-            if np.any(a_ == 0) or np.any(np.isinf(a_)) or (np.any(np.isnan(a_)) and np.any(a_[np.isfinite(a_)] < 1e-250)):
-                # (exp() of the solver's log-values gives 0.0 or inf at the edge of the float range, never a negative
-                # number: negative or otherwise wrong values are judged below)
-                return {"labels": ["collapsed_pseudo_solution"], "nontrivial": False}
+        all_ = np.concatenate([pO.arr(nm) for nm in names])
+        fin_ = all_[np.isfinite(all_)]
+        edge_ = bool(np.any(all_ == 0) or np.any(np.isinf(all_)))
+        far_ = bool(np.any((fin_ > 0) & ((fin_ < 1e-12) | (fin_ > 1e12))))
+        if edge_ and far_:
+            # exp() of the solver's log-values reached the edge of the float range (0.0 or inf) next to other values tens
+            # of log units away from anything drawn; negative or otherwise wrong values are judged below
+            return {"labels": ["collapsed_pseudo_solution"], "nontrivial": False}
     # ---- 1. residuals, frame by frame -----------------------------------------------------------------
     frames = info.get("frames", ())
     fdbs = info.get("frame_databoxes", ())
